@@ -41,6 +41,11 @@ type Subject interface {
 	// leniency a load needs (duplicates under coarsened comparators etc.), and re-synchronises the
 	// model to the legal choice the container made.
 	CheckLoaded(o *Oracle, tag string)
+	// EncodeModel is the reference encoding (plain encoding/json of Go slices / an ordered object
+	// writer) of the model content in the kind's own document format; AdoptModel copies the model of
+	// another subject of the same type.
+	EncodeModel() []byte
+	AdoptModel(from Subject)
 	// GenRead draws a read-only operation (C18 catalogue); DoRead executes it on the real container
 	// and returns the canonical result.
 	GenRead(r *Rng, id int) Op
